@@ -73,6 +73,9 @@ func main() {
 			if c.Thorough() {
 				n = 8
 			}
+			if scs[i].SlowReady && len(scs[i].Env) >= 2 {
+				n = 32 // by far the largest schedule tree (3/4 of the quick tier): spread it over all processes
+			}
 			for k := 0; k < n; k++ {
 				units = append(units, unit{i, k, n})
 			}
